@@ -188,6 +188,22 @@ def run(tier):
             ck.traces(1)
         if bi < 2:
             ck.sample(lines[:8] + lines[12:16])
+    # U: the same driver under MemorySanitizer: a result that depends on uninitialised memory (what the heap held before) is not a
+    # function of dictionary, input and calls
+    exem = core.build_exe("dictdrv_msan", ["dictdrv.c"], "msan")
+    for bi in range(1 if tier == "quick" else 6):
+        lines = gen_batch(ck.rng, tier)
+        sp = os.path.join(od, "dm.script"); tp = os.path.join(od, "dm.ndjson")
+        open(sp, "w").write("\n".join(lines) + "\n")
+        rc, out = core.sh([exem, sp, tp], timeout=1800, env={"MSAN_OPTIONS": "halt_on_error=1"})
+        nrt = len([1 for l in (open(tp).read().splitlines() if os.path.exists(tp) else []) if '"e":"rt"' in l])
+        ck.cov["msan_round_trips"] = ck.cov.get("msan_round_trips", 0) + nrt
+        if rc != 0 and "MemorySanitizer" in out:
+            fr = re.findall(r"#\d+ 0x[0-9a-f]+ in (\w+) [^\n]*?((?:zstd|huf|fse|entropy)\w*\.[ch]:\d+)", out)
+            rp = ck.replay_path("dict-msan-%d.script" % bi, "\n".join(lines) + "\n")
+            ck.violation("use of uninitialised memory (MemorySanitizer) in %s — the outcome depends on what the heap held" % " <- ".join(f[0] for f in fr[:5]), rp, ident="msan|%s" % (fr[0][1] if fr else "?"))
+        elif rc != 0:
+            ck.warn("MSan driver run failed rc=%d: %s" % (rc, (out.strip().splitlines() or [""])[-1][:160]))
     ck.assumptions += ["generated dictionaries are serialised with the library's table writers (FSE_writeNCount, HUF_writeCTable); the loaders and every consumer of the loaded tables are what is checked",
                        "frames are produced with a checksum in histories, so decoding with a different ID-less dictionary is detected rather than silently wrong"]
     return ck.finish(rule="one case per driver event; distinct by (event, dictionary kind, supply mode, decode mode, attach preference, level, verdicts)")
